@@ -10,6 +10,8 @@ package vh
 
 import (
 	"fmt"
+	"github.com/semihalev/twig"
+	"io"
 	"reflect"
 	"sort"
 	"strings"
@@ -22,6 +24,8 @@ import (
 type C18Case struct {
 	Ctx  Ctx               `json:"ctx"`
 	Tmpl map[string]string `json:"tmpl"`
+	// Debug: the engine runs with SetDebug(true) (its Render takes another route then)
+	Debug bool `json:"debug,omitempty"`
 }
 
 // snapshot renders a value into a canonical string, walking slices up to their capacity.
@@ -114,6 +118,11 @@ func checkC18(c C18Case) error {
 	e := newEngine(c.Tmpl)
 	NewSpies().Install(e)
 	e.EnableSandbox(allowAll{})
+	if c.Debug {
+		twig.SetDebugWriter(io.Discard)
+		e.SetDebug(true)
+		defer e.SetDebug(false)
+	}
 	r1 := render(e, "main", data)
 	if r1.Panic != "" {
 		return fmt.Errorf("panic: %s; templates:%s", r1.Panic, showSources(c.Tmpl))
@@ -252,10 +261,14 @@ func genC18(t *rapid.T) (C18Case, []string) {
 		tm["main"] = rapid.SampledFrom(c18Corners).Draw(t, "cornertmpl")
 		cl = []string{"assignment-in-one-corner-only"}
 	}
-	return C18Case{Ctx: ctx, Tmpl: tm}, cl
+	dbg := rapid.IntRange(0, 4).Draw(t, "debug") == 0
+	if dbg {
+		cl = append(cl, "engine-in-debug-mode")
+	}
+	return C18Case{Ctx: ctx, Tmpl: tm, Debug: dbg}, cl
 }
 
-const c18Rule = "contexts in which every collection is reachable twice (aliased keys) and nested (untyped lists with spare capacity, []int, []string, [3]int, named slice and map types (type Row []interface{} ...), untyped and typed maps, struct and pointer-to-struct fields); templates that apply chains of 1-4 collection-returning filters (sort, reverse, merge, slice, default) and functions (merge, max, cycle, range) to them, set results and re-filter them, loop with set on the loop variable, pass them through include-with and macro arguments where the callee reassigns and re-filters them, rebind context names, or assign in one corner only (an else branch, below apply/block/spaceless); non-trivial = at least one collection-returning filter is applied to a context collection with >= 2 elements (always true by construction); distinct by (context, template)"
+const c18Rule = "contexts in which every collection is reachable twice (aliased keys) and nested (untyped lists with spare capacity, []int, []string, [3]int, named slice and map types (type Row []interface{} ...), untyped and typed maps, struct and pointer-to-struct fields); templates that apply chains of 1-4 collection-returning filters (sort, reverse, merge, slice, default) and functions (merge, max, cycle, range) to them, set results and re-filter them, loop with set on the loop variable, pass them through include-with and macro arguments where the callee reassigns and re-filters them, rebind context names, or assign in one corner only (an else branch, below apply/block/spaceless); one case in five with the engine in debug mode; non-trivial = at least one collection-returning filter is applied to a context collection with >= 2 elements (always true by construction); distinct by (context, template)"
 
 func TestC18Immutable(t *testing.T) {
 	r := NewRec(t, "C18", c18Rule)
